@@ -27,6 +27,7 @@ func zzC02Merge(kr, ka int) {
 	zzvAssert("count-adds-up", s.GetCount() == store.ZZTotal(gs.pos)+store.ZZTotal(gs.neg)+gs.zero+store.ZZTotal(go_.pos)+store.ZZTotal(go_.neg)+go_.zero)
 	zzvAssert("argument-content-unchanged", zzSameContent(o, go_, p))
 	zzvAssert("argument-inv", zzInvSketch(o))
+	zzvAssert("sketches-share-no-store-memory", zzvAnd(zzvDisjoint(s.positiveValueStore, o.positiveValueStore), zzvDisjoint(s.negativeValueStore, o.negativeValueStore)))
 }
 
 func zzWithin(s *DDSketch, c, d int) bool {
